@@ -94,7 +94,7 @@ Definition h_read_prog (a : list sx) : sx :=
   | [rgs; cols; pcols; index; ops; r] =>
     match as_list_of as_rgd rgs, as_names cols, as_names pcols, as_names index, as_list_of as_hop ops, as_rd r with
     | Some rgs, Some cols, Some pcols, Some index, Some ops, Some r =>
-      s_out (run rgd_eqb bytes_eqb rgd_rows rgd_nrows (fun l : list rgd => l) (fun b => Some b)
+      s_out (run_prog rgd_eqb bytes_eqb rgd_rows rgd_nrows (fun l : list rgd => l) (fun b => Some b)
                  (mk_handle rgs cols pcols index) ops r)
     | _, _, _, _, _, _ => Sx.err "args"
     end
